@@ -340,7 +340,6 @@ func c07Fixtures(c *eng.Ctx) {
 	}
 }
 
-
 // c07State: R4 and R5.
 func c07State(c *eng.Ctx) {
 	// ---- R4
@@ -461,7 +460,9 @@ func c07State(c *eng.Ctx) {
 				continue
 			}
 			r := eng.RelOf(iff.Cond, true)
-			isName := func(v ssa.Value) bool { return eng.FieldLoadOf(v, "k8s.io/apimachinery/pkg/apis/meta/v1.ObjectMeta", "Name") }
+			isName := func(v ssa.Value) bool {
+				return eng.FieldLoadOf(v, "k8s.io/apimachinery/pkg/apis/meta/v1.ObjectMeta", "Name")
+			}
 			isStateName := func(v ssa.Value) bool {
 				x, _ := eng.CallResultOf(v)
 				return x != nil && eng.IsCall(x, pkgLimiter+".upstreamStateConditionName")
@@ -485,7 +486,6 @@ func c07State(c *eng.Ctx) {
 	}
 	c.Check("R5", cu, "sums stored as the state's status", cu.Pos(), stored, "the new sums must replace Status.LimitItemStatuses of the state condition passed in (and returned)")
 }
-
 
 // c07ReportOrdering records, under the given rule id, the obligations "every nil-error return of
 // UpdateRateLimitConditionStatus passes Save(report) → calculateUpstreamCondition → Save(state)
